@@ -348,6 +348,17 @@ def _validate_MaxObjectCount_OpenPull(MaxObjectCount):
                     MaxObjectCount))
 
 
+def _is_element(node, name):
+    """
+    Return whether a child node of a parsed (I)METHODRESPONSE is the tuple
+    (name, attributes, content) of the CIM-XML element with that name (ERROR,
+    IRETURNVALUE, RETURNVALUE), as opposed to the unpacked tuple (name, type,
+    value) of a PARAMVALUE element whose NAME attribute happens to be that
+    name.
+    """
+    return node[0] == name and isinstance(node[1], dict)
+
+
 def _cimvalue_from_cimxml(value, cimtype, conn_id=None):
     """
     Return the CIM typed value for the value of a RETURNVALUE or PARAMVALUE
@@ -2029,7 +2040,7 @@ class WBEMConnection:  # pylint: disable=too-many-instance-attributes
         # with output parameters.
 
         # Check for failed operation
-        if tup_tree and tup_tree[0][0] == 'ERROR':
+        if tup_tree and _is_element(tup_tree[0], 'ERROR'):
             # The operation failed
             err = tup_tree[0]
             try:
@@ -2053,7 +2064,7 @@ class WBEMConnection:  # pylint: disable=too-many-instance-attributes
         return_value = False
         out_param_names = []
         for child_node in tup_tree:
-            if child_node[0] == 'IRETURNVALUE':
+            if _is_element(child_node, 'IRETURNVALUE'):
                 return_value = True
             else:
                 # The PARAMVALUE nodes are already unpacked
@@ -2325,7 +2336,7 @@ class WBEMConnection:  # pylint: disable=too-many-instance-attributes
         # At this point we have an optional RETURNVALUE and zero or
         # more PARAMVALUE elements representing output parameters.
 
-        if tup_tree and tup_tree[0][0] == 'ERROR':
+        if tup_tree and _is_element(tup_tree[0], 'ERROR'):
             # Operation failed
             err = tup_tree[0]
             try:
@@ -2349,7 +2360,7 @@ class WBEMConnection:  # pylint: disable=too-many-instance-attributes
         # Convert optional RETURNVALUE into a Python object
         returnvalue = None
 
-        if tup_tree and tup_tree[0][0] == 'RETURNVALUE':
+        if tup_tree and _is_element(tup_tree[0], 'RETURNVALUE'):
 
             if 'PARAMTYPE' not in tup_tree[0][1]:
                 raise CIMXMLParseError(
@@ -2370,7 +2381,7 @@ class WBEMConnection:  # pylint: disable=too-many-instance-attributes
         output_params = NocaseDict()
 
         for p in tup_tree:
-            if p[0] == 'RETURNVALUE':
+            if _is_element(p, 'RETURNVALUE'):
                 raise CIMXMLParseError(
                     "More than one RETURNVALUE element in METHODRESPONSE",
                     conn_id=self.conn_id)
@@ -2520,7 +2531,7 @@ class WBEMConnection:  # pylint: disable=too-many-instance-attributes
         # return type.
 
         # Check for failed operation
-        if tup_tree and tup_tree[0][0] == 'ERROR':
+        if tup_tree and _is_element(tup_tree[0], 'ERROR'):
             # The operation failed
             err = tup_tree[0]
             try:
@@ -2879,7 +2890,7 @@ class WBEMConnection:  # pylint: disable=too-many-instance-attributes
                 if isinstance(p[2], str):
                     enumeration_context = p[2]
 
-            elif p[0] == "IRETURNVALUE":
+            elif _is_element(p, "IRETURNVALUE"):
                 rtn_objects = p[2]
 
         if not end_of_sequence_found and not enumeration_context_found:
